@@ -465,11 +465,28 @@ func HistoryTree.Add
   ensures isnil(result_2)
   // (theCache() is an arbitrary cache: the clause holds for whatever cache the tree writes through)
   ensures C04/history-digest: t.writeCache == theCache() && bytes(eventDigest) == ev(version) && StoreOK(theCache(), version) ==> bytes(result_0) == Hist(0, uint16(len64(version)), version)
+// (ghost bookkeeping: which list an insert visitor handed out)
+func insertVisitor.Result
+  modifies insertResults, lastInsertResult
+  assumes insertResults == old(insertResults) + 1 && lastInsertResult == result
+// C07, the history half of "one entry = one write": ONE visitor inserts every event of the bulk, and
+// the mutations returned for the caller's single store write are that visitor's list - the nodes of
+// ALL the events, not of the last one (with part of them missing the stored state says "applied"
+// while the history table holds part of the entry: after a restart proofs panic on missing nodes).
+// What each insertion contributes to the list is VisitMutateOp's (proved under C04); the digests
+// returned are not decided for the bulk path; run-time panics are not checked.
 func HistoryTree.AddBulk
-  modifies everything
+  props C07
+  requires HistLive(t)
+  unchecked_panics
+  modifies everything, cachePuts, insertResults, lastInsertResult
   ensures isnil(result_2) && len(result_0) == len(eventDigests)
+  ensures C07/the-mutations-of-the-whole-bulk-are-returned: insertResults == old(insertResults) + 1 && arrayof(result_1) == arrayof(lastInsertResult) && len(result_1) == len(lastInsertResult)
+  at operation.Accept assert C07/every-event-is-inserted-through-the-one-visitor: istype(arg1, *insertVisitor) && dyn(arg1, *insertVisitor) == visitor
   // ASSUMED (not verified for the bulk path): the caller's list of digests is read, not rearranged
-  ensures forall k int :: 0 <= k && k < len(eventDigests) ==> eventDigests[k] == old(eventDigests[k])
+  assumes forall k int :: 0 <= k && k < len(eventDigests) ==> eventDigests[k] == old(eventDigests[k])
+  loop 1 modifies everything, cachePuts
+  loop 1 invariant -1 <= rangeindex && rangeindex < len(eventDigests) && len(rootHashes) == rangeindex + 1 && visitor != nil && insertResults == old(insertResults)
 // (ghost bookkeeping: that a membership proof was asked for, and for which version - the
 // audit-path visitor panics on a node the tree does not have, i.e. for a version beyond the log)
 // The membership prover's wiring (as for ProveConsistency below; completeness - that the pruning
